@@ -28,6 +28,14 @@ CHECKS = {
              "Complete for the finite grammar enumerated (thorough: full cross product).",
         note="trusts rustc's improper_ctypes lint, the type checker, and the driver's fact printing; traits outside the corpus grammar are not covered",
         ref="4 C03"),
+    "C06": dict(
+        cat="other",
+        technique="ownership ledger: resolved-callee table of ownership-bypassing primitives, per-path net effect, constructor<->stored-destructor pairing by pointee type, who-may-call on destructor slots, pure-move rules for casts/opaque conversion",
+        text="safe Rust proves exactly-once destruction except at sites that bypass ownership tracking; every such site in boxed.rs, trait_group.rs and in all "
+             "generated code is classified and paired, which decides the property for every payload and every lifetime history (the suite's zero-sized, Drop-less "
+             "payloads cannot observe any of it). Context clones stored in RetTmp slots are reported under C07.",
+        note="trusts the std primitive semantics table in lib/ledger.py; unwinding paths are excluded (panics are outside the property)",
+        ref="3.1, 4 C06"),
     "C08": dict(
         cat="other",
         technique="per-function MIR rules (set of `?`-validated slots, dominance of the success site, aggregate field origins) over all 2^n-1 subsets x 5 operations of every generated group, plus rustc layout_of equality With_S == group",
